@@ -41,6 +41,51 @@ def code_data_to_json(code_data: CodeData) -> dict:
 MIN_INTEGER, MAX_INTEGER = (-(2**53) + 1, (2**53) - 1)
 
 
+# Python limits str(int) and int(str) to 4300 digits by default (CVE-2020-10735),
+# but a hex literal can make a bigger constant. Convert those in chunks below the
+# limit, instead of changing the interpreter wide setting.
+_INT_CHUNK_DIGITS = 4000
+
+
+def int_to_str(value: int) -> str:
+    """
+    Like str(value), but also works for integers above the int/str conversion limit.
+    """
+    try:
+        return str(value)
+    except ValueError:
+        pass
+    sign = "-" if value < 0 else ""
+    value = abs(value)
+    base = 10**_INT_CHUNK_DIGITS
+    chunks = []
+    while value:
+        value, chunk = divmod(value, base)
+        chunks.append(chunk)
+    return (
+        sign
+        + str(chunks[-1])
+        + "".join(str(c).zfill(_INT_CHUNK_DIGITS) for c in reversed(chunks[:-1]))
+    )
+
+
+def int_from_str(value: str) -> int:
+    """
+    Like int(value), but also works for strings above the int/str conversion limit.
+    """
+    try:
+        return int(value)
+    except ValueError:
+        digits = value[1:] if value[:1] in "+-" else value
+        if len(digits) <= _INT_CHUNK_DIGITS or not digits.isdigit():
+            raise
+    res = 0
+    for i in range(0, len(digits), _INT_CHUNK_DIGITS):
+        chunk = digits[i : i + _INT_CHUNK_DIGITS]
+        res = res * 10 ** len(chunk) + int(chunk)
+    return -res if value[:1] == "-" else res
+
+
 def value_to_json(value: object) -> object:
     """
     Like as dict but removes fields which are their defaults
@@ -53,7 +98,7 @@ def value_to_json(value: object) -> object:
         return value
     if isinstance(value, int):
         if value < MIN_INTEGER or value > MAX_INTEGER:
-            return {"int": str(value)}
+            return {"int": int_to_str(value)}
         return value
     if isinstance(value, str):
         try:
@@ -207,7 +252,7 @@ def constant_value_from_json(value: object) -> object:
     """
     if isinstance(value, dict):
         if "int" in value:
-            return int(value["int"])
+            return int_from_str(value["int"])
         if "float" in value:
             v = value["float"]
             if v == "inf":
